@@ -172,7 +172,7 @@ def run(ck, F, E):
                        "the code controlled by Interpreter.%s in %s also writes %s: enabling the option changes "
                        "program state, not just the presence of trace/warning records"
                        % (flag, body.path, sorted({"/".join(x[1] for x in p) for (_k, p) in bad})), sp or body.span)
-    ck.floor("C17.flag reads in abasic-core", n_reads, 4)
+    ck.floor("C17.flag reads in abasic-core", n_reads, 2)
 
     # ---- writers of the flags inside the core: TRACE / NOTRACE only
     for flag in FLAGS:
@@ -262,7 +262,7 @@ def run(ck, F, E):
                        "%s reaches %s without first logging the undeclared-array warning for the same symbol (or the "
                        "array is created before the warning is decided): with warnings on, the warning is lost"
                        % (cb.path, fn), c.span)
-    ck.floor("C17.implicit-array access sites", n_sites, 2)
+    ck.floor("C17.implicit-array access sites", n_sites, 1)
     mc = callers_of(F, "Arrays::maybe_create_default_array")
     names = sorted({b.path for b, _ in mc})
     ck.require(all(sfx(n, "Arrays::get_value_at_index") or sfx(n, "Arrays::set_value_at_index") for n in names),
